@@ -165,6 +165,9 @@ def run(chk: Check):
             if name in ("GaussianProcessSampler", "CORSSampler") and sp.dims > 4 and chk.tier == "quick":
                 continue
             bs = rng.randint(1, 4) if not tiny else rng.randint(3, 7)
+            if tiny and si % 8 == 3 and name in ("GaussianProcessSampler", "RandomForestSampler", "XGBoostSampler", "BestBatchSampler", "RandomUniformSampler"):
+                bs = int(sp.space_size) + rng.randint(1, 2)          # more points asked for than the space has: still batch_size rows, all on the grid
+                chk.count("batch_size:above_the_number_of_grid_points")
             opts = ch.random_opts(name, rng) if rng.random() < 0.6 else ch.SMALL_OPTS.get(name)
             if tiny:
                 # default candidate pool (the option left at None), everything else small for speed
